@@ -111,6 +111,16 @@ def _get_enforcer(namespace):
     return enforcer
 
 
+def _format_check_str(check_str):
+    """Render a rule value as a YAML/JSON scalar or flow sequence.
+
+    A plain string comes out double-quoted exactly as before; quotes and
+    backslashes inside it are escaped, and a legacy list-of-lists rule is
+    rendered as a list rather than as the text of its Python repr.
+    """
+    return jsonutils.dumps(check_str, ensure_ascii=False)
+
+
 def _format_help_text(description):
     """Format a comment for a policy based on the description provided.
 
@@ -173,9 +183,9 @@ def _format_rule_default_yaml(default, include_help=True, comment_rule=True,
                                  text.
     :returns: A string containing a yaml representation of the RuleDefault
     """  # noqa: E501
-    text = ('"%(name)s": "%(check_str)s"\n' %
+    text = ('"%(name)s": %(check_str)s\n' %
             {'name': default.name,
-             'check_str': default.check_str})
+             'check_str': _format_check_str(default.check_str)})
 
     if include_help:
         op = ""
@@ -259,9 +269,9 @@ def _format_rule_default_json(default):
     :param default: A policy.RuleDefault or policy.DocumentedRuleDefault object
     :returns: A string containing a json representation of the RuleDefault
     """  # noqa: E501
-    return ('"%(name)s": "%(check_str)s"' %
+    return ('"%(name)s": %(check_str)s' %
             {'name': default.name,
-             'check_str': default.check_str})
+             'check_str': _format_check_str(default.check_str)})
 
 
 def _sort_and_format_by_section(policies, output_format='yaml',
@@ -511,9 +521,9 @@ def _convert_policy_json_to_yaml(namespace, policy_file, output_file=None):
     if file_policies:
         yaml_format_rules.append(extra_rules_text)
     for file_rule, check_str in file_policies.items():
-        rule_text = ('"%(name)s": "%(check_str)s"\n' %
+        rule_text = ('"%(name)s": %(check_str)s\n' %
                      {'name': file_rule,
-                      'check_str': check_str})
+                      'check_str': _format_check_str(check_str)})
         yaml_format_rules.append(rule_text)
 
     if output_file:
